@@ -425,6 +425,11 @@ single
       {
         $$ = yr_re_node_create(RE_NODE_CLASS);
 
+        // The class is owned by this action, it must be released if the node
+        // that should hold it can't be created.
+        if ($$ == NULL)
+          yr_free($1);
+
         fail_if($$ == NULL, ERROR_INSUFFICIENT_MEMORY);
 
         $$->re_class = $1;
